@@ -339,6 +339,7 @@ func (in *Inst) Check(res *vrt.Result) []vrt.Violation {
 		ty, slot := k[0], k[1]
 		rem := removals(ty, slot)
 		onceTotal, onceMust := 0, false
+		var mustPubs, firedBy []int // once: publishes that must find it unfired / that fired it
 		for pid, p := range in.ops {
 			if (p.K != Pub && p.K != PubCancelled) || p.Ty != ty {
 				continue
@@ -367,6 +368,10 @@ func (in *Inst) Check(res *vrt.Result) []vrt.Violation {
 					onceTotal += got
 					if must {
 						onceMust = true
+						mustPubs = append(mustPubs, pid)
+					}
+					if got > 0 {
+						firedBy = append(firedBy, pid)
 					}
 					if never && got != 0 {
 						bad("unwanted-delivery", fmt.Sprintf("once sub#%d %s got pub#%d although removed before/subscribed after", r.id, in.ops[r.id], pid), fmt.Sprintf("got=%d", got))
@@ -426,6 +431,16 @@ func (in *Inst) Check(res *vrt.Result) []vrt.Violation {
 		if g[0].o.Once {
 			if onceTotal > len(g) {
 				bad("once-fired-twice", fmt.Sprintf("once handler t%d/s%d fired %d times (registrations: %d)", ty, slot, onceTotal, len(g)), "")
+			}
+			// "...and, if it is a Once handler, it has not fired yet": an eligible publish that
+			// returned before the publish that fired the handler was even called found it
+			// unfired and must have fired it itself.
+			for _, q := range firedBy {
+				for _, p := range mustPubs {
+					if p != q && ret[p] < call[q] && len(g) == 1 {
+						bad("once-skipped-eligible", fmt.Sprintf("once sub#%d %s was skipped by the eligible pub#%d although it had not fired yet (it was fired by pub#%d, which started after pub#%d returned)", g[0].id, in.ops[g[0].id], p, q, p), "")
+					}
+				}
 			}
 			if len(g) == 1 && onceMust && onceTotal != 1 {
 				bad("once-not-fired", fmt.Sprintf("once sub#%d %s had an eligible publish inside its lifetime but fired %d times", g[0].id, in.ops[g[0].id], onceTotal), "")
